@@ -6,7 +6,7 @@ from ..core import Violation, Discard
 
 ID = "C11"
 LEVEL = "exploration"
-RULE = ("Hypothesis-generated 1D columns (vp/c11gen.py): ADVECTION / TRANSPORT, 1-12 cells (thorough 1-40), 1-8 shifts (thorough 1-20), "
+RULE = ("Hypothesis-generated 1D columns (vp/c11gen.py; quick 3200 / thorough 24000 cases): ADVECTION / TRANSPORT, 1-12 cells (thorough 1-40), 1-8 shifts (thorough 1-20), "
         "forward/back/diffusion_only, all 9 boundary pairs, equal/unequal lengths, dispersivities, diffusion coefficient, time step, "
         "0-1 stagnant layer (first-order exchange or explicit MIX), multi_d off/explicit/implicit with its parameters, 2-4 distinct "
         "conservative solutions (Na K Li Ca Mg Cl Br N(5)) spread over cells, inflow 0 and n+1, optional calcite/exchanger. "
@@ -19,19 +19,39 @@ ASSUMPTIONS = ["TOTMOLE/TOT(\"water\")/CHARGE_BALANCE/SYS read through USER_PUNC
                "it equals the plain mole sum when the stagnant water mass is theta_im/theta_m of the mobile one",
                "explicit MIX definitions of stagnant cells are generated mass-conserving (equal water masses exchanged)",
                "runs in which the engine itself reports that it added moles to repair negative MCD concentrations are outside the domain (counted)",
+               "solver convergence: every saved speciation may move a total by max(1e-12*moles, sqrt(moles*1e-25)) (model.cpp); this slack, times the "
+               "number of speciations of a cell (2*(mixruns+1) per shift), is added to the 1e-9/1e-8 tolerances of the statement",
                "molality range: water is produced/consumed by H+/OH- on mixing, so the molality bound carries the physical slack "
                "2*Mw*max(mH+ + mOH-); the element/total-H ratio is checked with 1e-9 only"]
 TECHNIQUE = "property-based testing (Hypothesis): conservation / exact-shift / maximum-principle invariants over generated column set-ups"
 LEVEL_TEXT = ("Exploration: hundreds (quick) to thousands (thorough) of generated column configurations per run; each is checked per cell "
               "and per shift against the invariant(s) the property statement attaches to its configuration.")
 FLOORS = {"quick": 150, "thorough": 1500}
-SHARDS = {"quick": 4, "thorough": 4}
-BUDGET = {"quick": 1200, "thorough": 9600}
+SHARDS = {"quick": 8, "thorough": 16}
+if os.environ.get("VERIF_C11_SHARDS"):      # development on a loaded machine only
+    SHARDS = {"quick": int(os.environ["VERIF_C11_SHARDS"]), "thorough": int(os.environ["VERIF_C11_SHARDS"])}
+BUDGET = {"quick": 3200, "thorough": 24000}
 
 MW = 0.018016
 TOL_INV = 1e-9
 TOL_SHIFT = 1e-8
 TOL_RANGE = 1e-9
+# the solver's own mass-balance convergence criterion (model.cpp, residuals()/check_residuals()): a mole balance counts as
+# converged when |residual| <= max(convergence_tolerance * moles, sqrt(moles * MIN_TOTAL)), MIN_TOTAL = 1e-25, and the saved
+# total is the calculated one.  Every speciation of a cell may therefore move a saved total by that much (observed: Br
+# 1e-6 mol per cell drifts by 5e-18 mol per speciation, always upward).  DESIGN 4 rule 2: the solver's tolerance is added.
+CONV_TOL = 1e-12          # KNOBS -convergence_tolerance written into every generated input
+MIN_TOTAL = 1e-25
+
+
+def solver_slack(moles):
+    return max(CONV_TOL * abs(moles), (abs(moles) * MIN_TOTAL) ** 0.5)
+
+
+def events(obs, t):
+    """upper bound of the number of saved speciations of one cell up to shift t: per shift one per mixing run
+    (two with a stagnant layer: DISP and STAG) plus the advective step"""
+    return t * 2 * (obs["mixruns"] + 1)
 
 
 def prepare(tier):
@@ -43,7 +63,8 @@ def config(case):
     T = case["kind"] == "T"
     md = case["multi_d"]
     md_on = md is not None
-    md_active = md_on and not (max(md["pors"] or [md["por"]]) < md["por_lim"] and md["por"] < md["por_lim"])
+    # multicomponent diffusion is switched off by the engine where the porosity is below the limit given in -multi_d
+    md_active = md_on and not all(p < md["por_lim"] for p in (md["pors"] or []) + [md["por"]])
     closed = case["bc"] == ["closed", "closed"]
     diff_only = T and case["flow"] == "diffusion_only"
     equal = len(set(case["lengths"])) == 1
@@ -53,7 +74,7 @@ def config(case):
     pure_adv = (not stag) and ((not T) or (case["flow"] != "diffusion_only" and no_disp and
                                            ((not md_on and case["diffc"] == 0.0) or (md_on and not md_active))))
     cl = []
-    if T and diff_only and closed and (equal or md_active or (md_on and not md_active)):
+    if T and diff_only and closed and (equal or md_on):
         cl.append("iv" if solids else "i")
     if pure_adv and not solids:
         cl.append("ii")
@@ -80,6 +101,13 @@ def observe(case, ctx):
     finally:
         I.close()
     added = added_moles(warn)
+    mixruns = 0
+    for l in warn.split("\n"):
+        if "mixruns" in l and "shifts" in l:
+            try:
+                mixruns = int(l.split("shifts,")[1].split("mixruns")[0])
+            except (ValueError, IndexError):
+                raise Violation("observation", "cannot read the number of mixruns from %r" % l)
     if T.rows < 2:
         raise Discard("no_rows")
     h = T.headings()
@@ -102,7 +130,7 @@ def observe(case, ctx):
             tot = sum(abs(d.get("tm_" + e) or 0.0) for (c, t), d in rows.items() if t == 0 and 1 <= c)
             if a > 1e-11 * tot:
                 raise Discard("mcd_added_moles")
-    return {"init": init, "rows": rows, "dup": dup, "warn": warn, "heads": heads, "text": text, "added": added}
+    return {"init": init, "rows": rows, "dup": dup, "warn": warn, "heads": heads, "text": text, "added": added, "mixruns": mixruns}
 
 
 def added_moles(warn):
@@ -190,20 +218,30 @@ def clause_inventory(case, cfg, obs, prefix, els, with_charge):
     base = inv[0]
     worst = 0.0
     name = "inventory_solids" if prefix == "sys_" else "inventory"
+    # per-event slack of the solver, summed over the cells (largest amount a cell ever holds)
+    per_event = {}
+    for q in quantities:
+        per_event[q] = sum(w[c] * solver_slack(max(abs(rows[(c, t)][q]) for t in steps)) for c in w)
+    zq = [(q, G.ZABS.get(q.split("_", 1)[1], 1)) for q in quantities if q.split("_", 1)[1] not in ("H", "O")]
+    per_event_cb = sum(z * per_event[q] for q, z in zq)
     for t in steps[1:]:
+        nev = events(obs, t)
         for q in quantities:
             ref = max(abs(base[q]), 1e-20)
-            dev = abs(inv[t][q] - base[q]) / ref
-            worst = max(worst, dev)
-            if dev > TOL_INV:
-                raise Violation(name, "column inventory of %s changed: step 0 %.17g, step %d %.17g (relative %.3g > %g)" % (
-                    q, base[q], t, inv[t][q], dev, TOL_INV))
+            tol = TOL_INV * ref + 10 * CONV_TOL * ref + nev * per_event[q]
+            dev = abs(inv[t][q] - base[q])
+            worst = max(worst, dev / ref)
+            if dev > tol:
+                raise Violation(name, "column inventory of %s changed: step 0 %.17g, step %d %.17g (relative %.3g; allowed %g relative "
+                                "+ solver convergence slack of %d speciations = %.3g relative)" % (
+                                    q, base[q], t, inv[t][q], dev / ref, TOL_INV, nev, tol / ref))
         if with_charge:
             ref = max(base["zs"], 1e-20)
-            dev = abs(inv[t]["cb"] - base["cb"]) / ref
-            if dev > TOL_INV:
-                raise Violation(name + "_charge", "column charge changed: step 0 %.17g eq, step %d %.17g eq (%.3g of sum|z|m = %.6g)" % (
-                    base["cb"], t, inv[t]["cb"], dev, base["zs"]))
+            tol = TOL_INV * ref + 10 * CONV_TOL * ref + nev * per_event_cb
+            dev = abs(inv[t]["cb"] - base["cb"])
+            if dev > tol:
+                raise Violation(name + "_charge", "column charge changed: step 0 %.17g eq, step %d %.17g eq (%.3g of sum|z|m = %.6g; allowed %.3g)" % (
+                    base["cb"], t, inv[t]["cb"], dev / ref, base["zs"], tol / ref))
     return worst
 
 
@@ -238,7 +276,7 @@ def clause_shift(case, cfg, obs, els):
                 raise Violation("observation", "pure advection: no previous state of cell %d at shift %d" % (up, t - 1))
             for q in qs:
                 ref = max(abs(exp[q]), 1e-20)
-                if abs(cur[q] - exp[q]) > TOL_SHIFT * ref:
+                if abs(cur[q] - exp[q]) > TOL_SHIFT * ref + 2 * solver_slack(ref):
                     raise Violation("exact_shift", "cell %d after shift %d: %s = %.17g, upstream cell %d had %.17g before the shift (rel %.3g)" % (
                         i, t, q, cur[q], up, exp[q], abs(cur[q] - exp[q]) / ref))
             zs = max(zscale(exp, [e for e in els if e not in ("H", "O")]), 1e-20)
@@ -266,14 +304,16 @@ def clause_range(case, cfg, obs, els):
         for (c, t), d in rows.items():
             if t == 0:
                 continue
+            # solver slack: every speciation of the cell may move the saved total by solver_slack(moles)
+            sv = events(obs, t) * solver_slack(d[q]) / max(abs(d[q]), 1e-300)
             r = d[q] / d["tm_H"]
-            if r < lo_r * (1 - TOL_RANGE) - 1e-30 or r > hi_r * (1 + TOL_RANGE) + 1e-30:
-                raise Violation("range", "cell %d shift %d: %s per mole of total H = %.17g outside the initial/boundary range [%.17g, %.17g]" % (
-                    c, t, e, r, lo_r, hi_r))
+            if r < lo_r * (1 - TOL_RANGE - sv) - 1e-30 or r > hi_r * (1 + TOL_RANGE + sv) + 1e-30:
+                raise Violation("range", "cell %d shift %d: %s per mole of total H = %.17g outside the initial/boundary range [%.17g, %.17g] (slack %.3g)" % (
+                    c, t, e, r, lo_r, hi_r, TOL_RANGE + sv))
             m = d[q] / d["water"]
-            if m < lo_m * (1 - slack_m) - 1e-30 or m > hi_m * (1 + slack_m) + 1e-30:
+            if m < lo_m * (1 - slack_m - sv) - 1e-30 or m > hi_m * (1 + slack_m + sv) + 1e-30:
                 raise Violation("range_molality", "cell %d shift %d: %s molality %.17g outside the initial/boundary range [%.17g, %.17g] (slack %.3g)" % (
-                    c, t, e, m, lo_m, hi_m, slack_m))
+                    c, t, e, m, lo_m, hi_m, slack_m + sv))
 
 
 def changed(case, obs, els):
@@ -374,7 +414,9 @@ def check_case_inproc(case, ctx):
         if cl == "i":
             clause_inventory(case, cfg, obs, "tm_", els + ["H", "O"], True)
         elif cl == "iv":
-            clause_inventory(case, cfg, obs, "sys_", els_all + ["H", "O"], False)
+            # (the exchanger master X is not a chemical element: SYS("X") is the sum of the exchange species, which the
+            #  engine accepts with a residual of some 1e-9 relative in the state punched at step 0 -- not asserted)
+            clause_inventory(case, cfg, obs, "sys_", els + ["H", "O"], False)
         elif cl == "ii":
             nshift = clause_shift(case, cfg, obs, els + ["H", "O"])
         elif cl == "iii":
